@@ -310,6 +310,51 @@ func witnessStaleLink(scratch string) (bool, string) {
 	return strings.Contains(out, "is invalid"), "a block filled with 0xAA is released, then Symlink with a 100-byte target re-uses it: " + x.FsckSummary(out)
 }
 
+// trailTrigger is the trigger predicate of finding ext4-write-trailing-empty-writes: the write crosses the end
+// of an extent (so no single WriteAt takes the whole buffer) and an extent at or behind the end of the written
+// range would be addressed below device offset 0.
+func trailTrigger(ex []ext4.V04Extent, bs, off int64, n int) bool {
+	end := off + int64(n)
+	crosses, negative := false, false
+	for _, e := range ex {
+		eend := (int64(e.FileBlock) + int64(e.Count)) * bs
+		if off/bs < int64(e.FileBlock)+int64(e.Count) && eend < end {
+			crosses = true
+		}
+		if end <= int64(e.FileBlock)*bs && int64(e.Start)*bs+end < int64(e.FileBlock)*bs {
+			negative = true
+		}
+	}
+	return crosses && negative
+}
+
+// witnessTrail: a 1024-byte write at offset 512 into a three-extent file whose last extent lies at a lower
+// device block than its file block: both halves are written, then an empty WriteAt at a negative offset fails.
+func witnessTrail() (bool, string) {
+	es := []ext4.V04Extent{{FileBlock: 0, Start: 5, Count: 1}, {FileBlock: 1, Start: 7, Count: 2}, {FileBlock: 3, Start: 1, Count: 1}}
+	d := memdev.New(64 * 1024)
+	fl := ext4.V04SyntheticFile(d, 1024, es, 4096, 8, 512, 40)
+	data := make([]byte, 1024)
+	for i := range data {
+		data[i] = byte(i%250 + 1)
+	}
+	var wn int
+	var werr error
+	if p := catch(func() { wn, werr = fl.Write(data) }); p != "" {
+		return false, "Write panics: " + p
+	}
+	if werr == nil {
+		return false, "a write crossing an extent boundary in front of a low-placed extent succeeds"
+	}
+	landed := string(d.Bytes(5*1024+512, 512)) == string(data[:512]) && string(d.Bytes(7*1024, 512)) == string(data[512:])
+	return strings.Contains(werr.Error(), "negative offset") && wn == 1024 && landed,
+		fmt.Sprintf("extents %s, 1 KiB blocks, Write of 1024 bytes at offset 512 returns (%d, %v) although every byte is on the device (%v)", extStr(es), wn, werr, landed)
+}
+
+// asFoundTrail: File.Write leaves its loop only when one WriteAt took the whole buffer (set by the witness);
+// the Lean mirror runs with the same switch (cum=0) so that the correspondence is exact on either tree.
+var asFoundTrail bool
+
 func (e *engine) probeDefects() {
 	c := e.c
 	if c.Only != "" && !strings.HasPrefix(c.Only, "finding") {
@@ -337,6 +382,11 @@ func (e *engine) probeDefects() {
 		c.Known(tagStale, e.def.stale, m)
 	}
 	wrapPresent = e.def.wrap
+	e.def.trail, m = safely(witnessTrail)
+	asFoundTrail = e.def.trail
+	if !e.fsck {
+		c.Known(tagTrail, e.def.trail, m)
+	}
 	if e.fsck {
 		c.Known(tagRemove, dirty, fm)
 		e.def.leak, m = safely(func() (bool, string) { return witnessLeak(c.Scratch) })
@@ -586,6 +636,28 @@ func rwCases(c *hx.Ctx, r *hx.Rng) {
 			fb += uint32(cnt)
 			disk += uint64(cnt) + uint64(r.Intn(5))
 		}
+		// sometimes a later extent lies at a LOWER device block than everything before it (a tail that re-used
+		// blocks freed near the start of the volume): still disjoint (blocks 1..8 are below every other extent)
+		if len(es) >= 2 && r.Chance(25) {
+			i := 1 + r.Intn(len(es)-1)
+			es[i].Start = uint64(1 + r.Intn(4))
+		}
+		write := r.Chance(45)
+		// a sparse list (holes between extents, size beyond the last extent) for reads: File.Read zero-fills
+		sparse := !write && len(es) > 0 && r.Chance(20)
+		if sparse {
+			shift := uint32(0)
+			for i := range es {
+				if r.Chance(50) {
+					shift += uint32(1 + r.Intn(3))
+				}
+				es[i].FileBlock += shift
+			}
+			fb += shift
+			if r.Chance(40) {
+				fb += uint32(1 + r.Intn(3)) // a hole behind the last extent
+			}
+		}
 		alloc := int64(fb) * bs
 		var size int64
 		switch y := r.Intn(10); {
@@ -619,7 +691,6 @@ func rwCases(c *hx.Ctx, r *hx.Rng) {
 		if r.Chance(5) {
 			nbytes = 0
 		}
-		write := r.Chance(45)
 		if write {
 			// stay inside the allocated blocks (no allocator behind a synthetic file)
 			if off+int64(nbytes) > alloc {
@@ -645,7 +716,7 @@ func rwCases(c *hx.Ctx, r *hx.Rng) {
 			opn = "write"
 		}
 		c.Case(id, "ext4.rw", "op="+opn, fmt.Sprintf("bs=%d", bs), fmt.Sprintf("size=%d", size), fmt.Sprintf("off=%d", off),
-			fmt.Sprintf("n=%d", nbytes), "ext="+extStr(es), fmt.Sprintf("lt=%d", b2i(asFoundLt)))
+			fmt.Sprintf("n=%d", nbytes), "ext="+extStr(es), fmt.Sprintf("lt=%d", b2i(asFoundLt)), fmt.Sprintf("cum=%d", b2i(!asFoundTrail)))
 		trig := skipTrigger(es, bs, off) && (write || off < size)
 		desc := fmt.Sprintf("op=%s bs=%d size=%d off=%d n=%d ext=%s", opn, bs, size, off, nbytes, extStr(es))
 		var ios []string
@@ -670,8 +741,16 @@ func rwCases(c *hx.Ctx, r *hx.Rng) {
 				}
 				continue
 			case werr != nil:
-				c.Impl(id, "err")
-				c.Fail(id, "-", "File.Write inside the allocated blocks refused: "+werr.Error(), desc)
+				c.Impl(id, "err", "io="+joinOr(ios), fmt.Sprintf("n=%d", wn), fmt.Sprintf("size=%d", fl.V04Size()), fmt.Sprintf("off=%d", fl.V04Offset()))
+				if asFoundTrail && wn == nbytes && strings.Contains(werr.Error(), "negative offset") && trailTrigger(es, bs, off, nbytes) {
+					c.Stat("rw.trailing-negative-offset")
+					if trailReported < 3 {
+						trailReported++
+						c.Fail(id, tagTrail, "File.Write wrote every byte and returned an error: "+werr.Error(), desc)
+					}
+				} else {
+					c.Fail(id, "-", "File.Write inside the allocated blocks refused: "+werr.Error(), desc)
+				}
 				continue
 			}
 			c.Impl(id, "io="+joinOr(ios), fmt.Sprintf("n=%d", wn), fmt.Sprintf("size=%d", fl.V04Size()), fmt.Sprintf("off=%d", fl.V04Offset()))
@@ -693,6 +772,25 @@ func rwCases(c *hx.Ctx, r *hx.Rng) {
 					c.Fail(id, "-", fmt.Sprintf("byte %d of the write is not at the mapped device offset", i), desc)
 					bad = true
 					break
+				}
+			}
+			// frame: every other device byte (the scratch inode table block aside) is still zero
+			if !bad {
+				img := d.Bytes(0, int(devSize))
+				for i := 0; i < nbytes; i++ {
+					pos, _ := mapByte(es, bs, off+int64(i))
+					if img[pos] != data[i] {
+						c.Fail(id, "-", fmt.Sprintf("byte %d of the write is not at the mapped device offset %d", i, pos), desc)
+						bad = true
+						break
+					}
+					img[pos] = 0
+				}
+				for p := int64(0); !bad && p < devSize; p++ {
+					if img[p] != 0 && (p < int64(itb)*bs || p >= int64(itb+1)*bs) {
+						c.Fail(id, "-", fmt.Sprintf("File.Write changed device byte %d, which the write does not map to", p), desc)
+						bad = true
+					}
 				}
 			}
 			if !bad {
@@ -725,7 +823,7 @@ func rwCases(c *hx.Ctx, r *hx.Rng) {
 				c.Fail(id, "-", "File.Read failed: "+rerr.Error(), desc)
 				continue
 			}
-			c.Impl(id, "io="+joinOr(ios), fmt.Sprintf("n=%d", rn), fmt.Sprintf("eof=%d", b2i(rerr == io.EOF)), fmt.Sprintf("off=%d", fl.V04Offset()))
+			c.Impl(id, "io="+joinOr(ios), fmt.Sprintf("n=%d", rn), fmt.Sprintf("eof=%d", b2i(rerr == io.EOF)), fmt.Sprintf("off=%d", fl.V04Offset()), fmt.Sprintf("fnv=%d", fnv1a(buf[:rn])))
 			// oracle: drop/take of the mapped byte string
 			want := 0
 			if off < size {
@@ -734,27 +832,26 @@ func rwCases(c *hx.Ctx, r *hx.Rng) {
 					want = int(size - off)
 				}
 			}
-			holey := false
-			for i := 0; i < want; i++ {
-				if _, ok := mapByte(es, bs, off+int64(i)); !ok {
-					holey = true
-				}
-			}
-			if holey {
-				continue // a hole in the extent list: outside the property (the library never writes one)
-			}
 			if rn != want {
 				c.Fail(id, "-", fmt.Sprintf("Read returned %d bytes, want %d", rn, want), desc)
 				continue
 			}
 			bad := false
 			for i := 0; i < rn; i++ {
-				pos, _ := mapByte(es, bs, off+int64(i))
-				if buf[i] != byte(pos*7+3) {
-					c.Fail(id, "-", fmt.Sprintf("byte %d read is not the byte at the mapped device offset %d", i, pos), desc)
+				// a file byte no extent maps (a hole) reads as zero
+				pos, mapped := mapByte(es, bs, off+int64(i))
+				wantB := byte(0)
+				if mapped {
+					wantB = byte(pos*7 + 3)
+				}
+				if buf[i] != wantB {
+					c.Fail(id, "-", fmt.Sprintf("byte %d read is %#x, want %#x (mapped=%v, device offset %d)", i, buf[i], wantB, mapped, pos), desc)
 					bad = true
 					break
 				}
+			}
+			if sparse {
+				c.Stat("rw.read-sparse")
 			}
 			if !bad {
 				c.OK(id)
@@ -767,7 +864,16 @@ func rwCases(c *hx.Ctx, r *hx.Rng) {
 	}
 }
 
-var skipReported int
+var skipReported, trailReported int
+
+// fnv1a is the digest of the bytes a Read returned (the Lean driver prints the same digest of the model's data)
+func fnv1a(b []byte) uint32 {
+	h := uint32(2166136261)
+	for _, x := range b {
+		h = (h ^ uint32(x)) * 16777619
+	}
+	return h
+}
 
 // knownSkip reports the first few synthetic inputs that hit the extent-skip defect as oracle failures under its
 // tag and counts the rest (the defect's own witness is replayed separately).
